@@ -3,6 +3,7 @@ package main
 // Running a check: solve, classify, known findings, replay files, evidence.
 
 import (
+	"sync"
 	"encoding/json"
 	"fmt"
 	"os"
@@ -128,13 +129,28 @@ func (rep *Report) finish() int {
 		}
 	}
 	// second chance for non-answers with a longer timeout before calling anything a failure
-	for i := range results {
-		r := &results[i]
-		if r.Res != "sat" && r.Res != "unsat" {
-			rr := solveOne(r.Obl, timeout*3)
-			rr.Dur += r.Dur
-			results[i] = rr
+	// (in parallel, and at most 40 of them: a tree on which more than that stay undecided is reported as it is)
+	{
+		var idx []int
+		for i := range results {
+			if results[i].Res != "sat" && results[i].Res != "unsat" && len(idx) < 40 {
+				idx = append(idx, i)
+			}
 		}
+		var wg sync.WaitGroup
+		sem := make(chan struct{}, 5)
+		for _, i := range idx {
+			wg.Add(1)
+			sem <- struct{}{}
+			go func(i int) {
+				defer wg.Done()
+				defer func() { <-sem }()
+				rr := solveOne(results[i].Obl, timeout*3)
+				rr.Dur += results[i].Dur
+				results[i] = rr
+			}(i)
+		}
+		wg.Wait()
 	}
 	known := loadKnown()
 	os.RemoveAll(filepath.Join(evidenceDir, "replay", rep.Property))
